@@ -474,7 +474,8 @@ func main() {
 		var rerr error
 		if cfg["Stack"] == true {
 			sim, evs, rerr = csim.RunLiveStack(dir, powersOf(cfg), intsOf(cfg["Byz"]), int64(mbt.Int(cfg["MaxRound"])),
-				int64(mbt.Int(cfg["Heights"])), time.Duration(mbt.Int(cfg["LimitMs"]))*time.Millisecond, scaleOf(cfg))
+				int64(mbt.Int(cfg["Heights"])), time.Duration(mbt.Int(cfg["LimitMs"]))*time.Millisecond, scaleOf(cfg),
+				optInt(cfg, "Laggard"), int64(optInt(cfg, "LagUntil")), optInt(cfg, "StopNode"))
 		} else {
 			sim, evs, rerr = csim.RunLive(dir, powersOf(cfg), intsOf(cfg["Byz"]), int64(mbt.Int(cfg["MaxRound"])),
 				int64(mbt.Int(cfg["Heights"])), int64(mbt.Int(cfg["Seed"])), time.Duration(mbt.Int(cfg["LimitMs"]))*time.Millisecond, scaleOf(cfg), cfg["ByzActive"] == true)
@@ -482,6 +483,12 @@ func main() {
 		res := map[string]interface{}{"events": len(evs)}
 		if rerr != nil {
 			res["error"] = rerr.Error()
+			if cfg["Stack"] == true {
+				// no trace is validated for a run that made no progress: report and leave (the nodes are still running)
+				json.NewEncoder(os.Stdout).Encode(res)
+				os.RemoveAll(dir)
+				os.Exit(0)
+			}
 		}
 		if sim != nil {
 			recs := sim.LiveTrace(evs, int64(mbt.Int(cfg["Heights"])))
@@ -503,6 +510,12 @@ func main() {
 				hs[strconv.Itoa(i)] = sim.Nodes[i].Store.Height()
 			}
 			res["heights"] = hs
+			if cfg["Stack"] == true {
+				// the reactors' per-peer gossip goroutines wind down on their own timers: do not close the stores under them
+				json.NewEncoder(os.Stdout).Encode(res)
+				os.RemoveAll(dir)
+				os.Exit(0)
+			}
 			sim.Close()
 		}
 		json.NewEncoder(os.Stdout).Encode(res)
@@ -542,4 +555,11 @@ func main() {
 		rep.Emit()
 	}
 	_ = types.VoteTypePrevote
+}
+
+func optInt(cfg map[string]interface{}, k string) int {
+	if v, ok := cfg[k]; ok && v != nil {
+		return mbt.Int(v)
+	}
+	return 0
 }
